@@ -198,6 +198,16 @@ type Handle struct {
 	Point func(r *Req)
 	// Dead makes every request fail (the process has crashed).
 	Dead bool
+	// Unbounded lists the requests that were given no answer (FaultHang) while their context could never
+	// end (no deadline, no cancellation): the caller would have blocked forever. Guarded by B.mu.
+	Unbounded []string
+}
+
+// HungForever returns the requests recorded in Unbounded.
+func (h *Handle) HungForever() []string {
+	h.B.mu.Lock()
+	defer h.B.mu.Unlock()
+	return append([]string{}, h.Unbounded...)
 }
 
 func (b *Bucket) Handle(name string) *Handle { return &Handle{B: b, Name: name} }
@@ -241,6 +251,15 @@ func (h *Handle) begin(ctx aws.Context, op, key string, body []byte) (*Req, Faul
 	if h.Fault != nil {
 		mode, err := h.Fault(r)
 		if mode == FaultHang {
+			if ctx.Done() == nil {
+				// a context that can never end: the real client would wait forever. Record it and answer at once.
+				h.B.mu.Lock()
+				h.Unbounded = append(h.Unbounded, r.String())
+				h.B.mu.Unlock()
+				r.Outcome = "ctx"
+				h.record(r)
+				return r, FailBefore, awserr.New(request.CanceledErrorCode, "request context canceled", context.DeadlineExceeded)
+			}
 			select {
 			case <-ctx.Done():
 			case <-time.After(60 * time.Second): // no deadline set: the harness made a mistake; do not block forever
